@@ -11,6 +11,14 @@ NOTE_COMMON = ('Trusted base: clang 14 front end on the original sources with th
                '(not the match-compiled copies), tools/cppfacts, the rule module. ')
 
 CLAIMS = {
+    'C18': dict(
+        technique='static analysis: narrowing-cast lint + field coverage + must-pass-through (dominance) on the structured CFG of the cache-key functions',
+        text='Decides the cache-key clause of the property: in Preprocessor::calculateHash no token line/column passes an '
+             'integral narrowing cast, both token sources (file and every loaded header) are iterated with str/line/col '
+             'appended, the key is computed after preprocessor.inlineSuppressions on every path of CppCheck::checkInternal and '
+             'contains the suppression dump, and AnalyzerInformation::skipAnalysis accepts only when the whole key compares equal. '
+             'Not decided: the files.txt mapping under add/remove/rename histories and the whole-program summaries reuse.',
+        design='3/C18', note='Partial: necessary conditions on the key; histories themselves are not enumerated.'),
     'C19': dict(
         technique='static analysis: writer/reader agreement between the option parser and the cache key (field who-reads query over the resolved call closure)',
         text='Decides the structural clause "every option the property lists is an input of the cache key": for each listed '
